@@ -28,7 +28,9 @@ Inductive obs :=
                                        (* `lookup_in` [`lookup_out`] (hooks/lookup-cid.diff): one call of Lowerer::lookup_cid and its result
                                           (None = an error); post = the read happened after the operation's instance / redirect
                                           (a join filter), so it sees node_mapping as the operation leaves it *)
-| BLookupAll (post : bool) (node : N) (cids : list cid).
+| BLookupAll (post : bool) (node : N) (cids : list cid)
+| BSelectedAll (within except out : list cid).
+                                       (* `selected_all` (hooks/selected-all.diff): find_selected_all with an `except` *)
                                        (* `lookup_all`: declare_as_columns on a reference to a whole input *)
 
 (* Lowerer::lookup_cid on node_mapping *)
@@ -42,6 +44,9 @@ Definition lookup_cid_m (m : list (N * target)) (id : N) (name : option str) : o
       end
   | None => None
   end.
+
+(* find_selected_all: `selected.retain(|t| !except.contains(t))` *)
+Definition retain_m (within except : list cid) : list cid := filter (fun c => negb (memN c except)) within.
 
 Fixpoint last_opt {A} (l : list A) : option A :=
   match l with [] => None | [x] => Some x | _ :: l' => last_opt l' end.
@@ -102,6 +107,7 @@ Definition check_obs (s s' : lstate) (o : op) (b : obs) : bool :=
       | Some (MInput ic) => cids_eqb (map snd ic) cids
       | _ => false
       end
+  | BSelectedAll within except out => cids_eqb (retain_m within except) out
   end.
 
 (* inl = final state; inr k = operation number k (from 0) is not a step of the machine, or the state after it does not
